@@ -455,10 +455,15 @@ where
     fn sample(&mut self) -> usize {
         let r: T = self.rng.random();
         let mut cum: T = T::zero();
-        let mut k = self.probs.len() - 1;
+        // Fall back to the last category of positive probability, never to a zero one.
+        let mut k = self
+            .probs
+            .iter()
+            .rposition(|&p| p > T::zero())
+            .unwrap_or(self.probs.len() - 1);
         for (i, &p) in self.probs.iter().enumerate() {
             cum += p;
-            if r <= cum {
+            if p > T::zero() && r <= cum {
                 k = i;
                 break;
             }
